@@ -881,3 +881,27 @@ def r13(rr, repo):
         persisted = any(isinstance(c, ast.Call) and U(c.func) in ('open', 'os.stat', 'os.path.getmtime', 'os.listdir') for c in ast.walk(nl))
         rr.ob('the new name is kept above every timestamp the log has used, not only above the files that are still listed', (not only_listed) or persisted, mod, g,
               witness=f'compared with: {sorted(r for r in refs if "logfiles" in r)}; nothing in new_logfile reads a mark that outlives the newest file', key='restart-forgets-deleted-newest')
+
+
+@rule('C13.R14', "a position that names a file which is gone lands on the first newer file: seek() brings the timestamp it reads off the file name to the unit of the listed timestamps (the same division the scan "
+                 "applies) before it compares them - compared in microseconds against seconds, no listed file is ever 'newer', the reader is put past the end of the list and every surviving record is skipped")
+def r14(rr, repo):
+    mod, seek = repo.find(f'{RL}::RollLog.seek')
+    _, scan = repo.find(f'{RL}::RollLog.scan_logfiles')
+    def scalings(fn):
+        out = []
+        for n in ast.walk(fn):
+            if isinstance(n, ast.BinOp) and isinstance(n.op, ast.Div) and isinstance(n.right, ast.Constant) and 'group(1)' in U(n.left):
+                out.append((n, n.right.value))
+        return out
+    sc = scalings(scan)
+    rr.floor('timestamp scalings in scan_logfiles', len(sc), 1, mod, scan)
+    unit = sc[0][1] if sc else None
+    reads = [n for n in walk_scope(seek) if isinstance(n, ast.Assign) and 'group(1)' in U(n.value) and 'timestamp' in U(n.targets[0])]
+    rr.floor('timestamps read off a file name in seek()', len(reads), 1, mod, seek)
+    for n in reads:
+        ss = scalings(n)
+        ok = len(ss) == 1 and ss[0][1] == unit and ss[0][0] is n.value
+        rr.ob('the timestamp seek() reads off the sought file name is scaled like the listed ones', ok, mod, n, witness=f'{U(n)[:80]}; the scan divides by {unit}', key='seek-timestamp-unit')
+        cmps = [c for c in ast.walk(seek) if isinstance(c, ast.Compare) and U(n.targets[0]) in [U(x) for x in [c.left] + c.comparators] and any('.timestamp' in U(x) for x in [c.left] + c.comparators)]
+        rr.ob('... and compared with the listed timestamps', bool(cmps), mod, n, witness=U(cmps[0])[:60] if cmps else 'no comparison', key='seek-timestamp-compared')
